@@ -54,7 +54,7 @@ theorem parseMantissa_zero (c : FC) (hmax : 2 ≤ c.maxDigits) (integer fraction
   rfl
 
 /-- `NearBelow` depends only on the rational `a/bb` -/
-theorem nearBelow_congr (F : Fmt) (b a bb a' bb' : Nat) (hbb : 0 < bb) (hbb' : 0 < bb') (h : a * bb' = a' * bb)
+theorem nearBelow_congr (F : Fmt) (b a bb a' bb' : Nat) (_hbb : 0 < bb) (hbb' : 0 < bb') (h : a * bb' = a' * bb)
     (hn : NearBelow F b a bb) : NearBelow F b a' bb' := by
   obtain ⟨h1, h2⟩ := hn
   constructor
